@@ -1270,5 +1270,5 @@ func sourceMode(b []byte) int {
 	if h < 0 {
 		h = -h
 	}
-	return []int{0, gen.SourceSeekAdvanced, gen.SourceBuffer, gen.SourceBufio, 1, 2, 7, 512, 4096, 4097}[h%10]
+	return []int{0, gen.SourceSeekAdvanced, gen.SourceBuffer, gen.SourceBufio, 1, 2, 7, 512, 4096, 4097, gen.SourceFile, gen.SourceFileAdvanced, gen.SourcePipe}[h%13]
 }
